@@ -83,7 +83,7 @@ func init() {
 				cse.TimeoutMS = 60000
 				cs = append(cs, cse)
 			}
-			for i, s := range []string{"blocked-stop", "parked-dispatch", "cancel-blocked-stop", "restart-rearm", "restart-from-last", "stop-at-once", "double-stop", "long-blocked-stop", "zero-delay-middle"} {
+			for i, s := range []string{"blocked-stop", "parked-dispatch", "cancel-blocked-stop", "restart-rearm", "restart-from-last", "stop-at-once", "double-stop", "long-blocked-stop", "zero-delay-middle", "equal-frequency-neighbours", "unsorted-delays"} {
 				reps := 2
 				if tier == "thorough" {
 					reps = 8
@@ -95,6 +95,14 @@ func init() {
 					}
 					if s == "zero-delay-middle" {
 						p.Scheds = []c18Sched{{0, 5}, {0, 7}, {900, 3}}
+					}
+					if s == "equal-frequency-neighbours" {
+						// two neighbours with the same frequency are still two schedules: the third starts after both delays
+						p.Scheds = []c18Sched{{0, 10}, {400, 10}, {400, 3}}
+					}
+					if s == "unsorted-delays" {
+						// start delays are relative to the previous schedule, in list order, whatever their sizes
+						p.Scheds = []c18Sched{{0, 10}, {600, 7}, {100, 3}}
 					}
 					if s == "long-blocked-stop" && rep > 0 {
 						continue // 6.5 s each: one per tier run
@@ -454,6 +462,29 @@ func c18Script(c *core.Case, o *core.Outcome) {
 			o.Violate(key, "function in flight when Stop returned")
 			return
 		}
+	case "equal-frequency-neighbours", "unsorted-delays":
+		rc := &c18Rec{l: l}
+		tNew := l.Now()
+		runner, _ := raterun.New(rc.c18fn, c18Schedules(&p))
+		runner.Start(ctx)
+		time.Sleep(550 * time.Millisecond)
+		runner.Stop()
+		last := p.Scheds[len(p.Scheds)-1]
+		due := time.Duration(p.Scheds[1].DelayMS+last.DelayMS) * time.Millisecond
+		rc.mu.Lock()
+		invs := append([]c18Inv{}, rc.invs...)
+		rc.mu.Unlock()
+		for i, in := range invs {
+			if in.freq == time.Duration(last.FreqMS)*time.Millisecond && in.begin < tNew+due {
+				o.Violate(key, "schedules %v: invocation %d ran at the last schedule's frequency %v after New, before the start delays before it (%v in all) had elapsed", p.Scheds, i, in.begin-tNew, due)
+				return
+			}
+		}
+		if len(invs) < 5 {
+			o.Inconc("too few invocations (%d)", len(invs))
+			return
+		}
+		o.AddObs("invocations", int64(len(invs)))
 	case "zero-delay-middle":
 		// a schedule with start delay 0 in the middle of the list takes over at once; the one after it still
 		// waits for its own start delay
